@@ -7,3 +7,7 @@ ENGINES = [
 NOTES = "All checks run the real rssl crates (path dependencies on /repo) inside /verif/harness; see DESIGN.md."
 NOT_YET = {}
 CLAIMED = []
+CLAIMED.append(check("C10", "exploration",
+  "Bounded-exhaustive enumeration through the real lexer: every text t1 s1 t2 s2 (full token alphabet, 9 trivia kinds) and t1 s1 t2 s2 t3 (class alphabet) must have spans that tile the file and unlex back to the source; every digit string of <=4 digits per radix x 13 suffixes plus 2^k+-1/10^k families must lex to its exact value or be rejected when >= 2^64; every float spelling I.FeX S with <=4 significant digits, every exponent -330..310 and every suffix (thorough: 3.9e8 spellings) plus a 17/20-digit binade-boundary family must lex to the nearest double (narrowed once for f/h); thinned spellings are followed through compile() to the emitted HLSL. All cases within the bound are enumerated, none sampled.",
+  "Trusts Rust's str::parse::<f64> as the correctly rounded reference and u128::from_str_radix for integers. Spellings with >4 significant digits only via the hard family; '.5'-style and strings with more than 3 tokens are outside the bound.",
+  "bounded exhaustive input enumeration against reference lexing/number models (stateless model checking of the lexer)", "DESIGN.md section 5 C10", "e1-enumerate"))
